@@ -10,6 +10,7 @@ EXPLANATION = (
     "seal (call graph + forced constant propagation with action := None). R2 formula: arithmetic normal form of the value "
     "written, per sign branch, equals fm ± |max(fm>>7, 2 if TIP-901)·delta/128|, with the TIP-901 flag's provenance tip_901(self). "
     "R3 no wrap-around: no lossy narrowing cast and no undischarged overflow assertion on the path from reading to writing the multiplier."
+    " R3 also reports wrapping_* / overflowing_* arithmetic on a multiplier-derived value. Imports the activation table C06.R5 (the floor of 2 applies from TIP-901)."
 )
 NOT_DECIDED = ["numeric range claims beyond the absence of wrapping operations (saturation points are read, not proved optimal)"]
 ASSUMPTIONS = ["ProposerAction.fee_multiplier_delta is an i8 (melstructs 0.3.3), hence |delta| ≤ 128"]
